@@ -2,7 +2,7 @@
 
     Wherever the reading decides by looking at the next symbol - enter an optional block or skip it, go on
     with an open-ended match (or wait pattern) or end it, which clause of a case has been matched, which
-    pattern of a greedy case wins - the symbol (resp. the consumed text) must not admit two continuations:
+    pattern of a greedy case wins - the symbol (resp. the consumed text) must not allow two continuations:
 
     - optional:   the symbol does not both begin the body and begin what follows the block;
     - open match: when what has been matched so far is a complete match, the symbol does not both continue the
